@@ -26,14 +26,21 @@ def observe(buf_codes, funcs, keep_padding):
     from mathy_core.expressions import SgnExpression, AbsExpression
 
     t = Tokenizer(exclude_padding=not keep_padding) if len(buf_codes) % 2 else Tokenizer(not keep_padding)      # keyword / positional in turn
-    t.functions = {"".join(map(chr, f)): (SgnExpression if f == SGN else AbsExpression) for f in funcs}
+    # a name is registered by being a key of the table; what it maps to is the parser's business (every third table maps the extra
+    # names to None)
+    none_vals = len(buf_codes) % 3 == 0
+    t.functions = {"".join(map(chr, f)): (SgnExpression if f == SGN else (None if none_vals else AbsExpression)) for f in funcs}
     text = "".join(map(chr, buf_codes))
     try:
         toks = t.tokenize(text)
     except BaseException as e:  # noqa
         return {"ok": False, "exc": type(e).__name__, "t": [], "v": []}
-    return {"ok": True, "exc": "", "t": [TYPEBITS.get(k.type, 14) for k in toks],
-            "v": [[ord(c) for c in str(k.value)] for k in toks]}
+    out = {"ok": True, "exc": "", "t": [TYPEBITS.get(k.type, 14) for k in toks],
+           "v": [[ord(c) for c in str(k.value)] for k in toks]}
+    for k in toks:          # the caller owns what it was given: editing the Token objects must not reach any later call
+        k.value = "?"
+        k.type = 1 << 12
+    return out
 
 
 ABSOLUTE = [ord(c) for c in "absolute"]
